@@ -6,16 +6,17 @@ import (
 	"gitee.com/Trisia/gotlcp/tlcp"
 	"net"
 	"sync"
+	"sync/atomic"
 )
 
 // ProtocolSwitchServerConn 自适应协议切换连接对象
 type ProtocolSwitchServerConn struct {
 	net.Conn
 
-	lock    *sync.Mutex         // 防止并发调用
-	p       *ProtocolDetectConn // 协议检测对象
-	ln      *listener           // 监听器上下文
-	wrapped net.Conn            // 包装后的连接对象
+	lock    *sync.Mutex              // 防止并发调用
+	p       *ProtocolDetectConn      // 协议检测对象
+	ln      *listener                // 监听器上下文
+	wrapped atomic.Pointer[net.Conn] // 包装后的连接对象（首次读写时由 detect 设置，可能被多个 goroutine 并发读取）
 }
 
 // NewProtocolSwitchServerConn 创建一个自适应协议切换连接对象
@@ -24,11 +25,10 @@ type ProtocolSwitchServerConn struct {
 func NewProtocolSwitchServerConn(ln *listener, rawConn net.Conn) *ProtocolSwitchServerConn {
 	p := &ProtocolDetectConn{Conn: rawConn}
 	return &ProtocolSwitchServerConn{
-		Conn:    rawConn,
-		ln:      ln,
-		p:       p,
-		lock:    new(sync.Mutex),
-		wrapped: nil,
+		Conn: rawConn,
+		ln:   ln,
+		p:    p,
+		lock: new(sync.Mutex),
 	}
 }
 
@@ -36,7 +36,7 @@ func NewProtocolSwitchServerConn(ln *listener, rawConn net.Conn) *ProtocolSwitch
 func (c *ProtocolSwitchServerConn) detect() error {
 	c.lock.Lock()
 	defer c.lock.Unlock()
-	if c.wrapped != nil {
+	if c.wrapped.Load() != nil {
 		return nil
 	}
 
@@ -51,40 +51,47 @@ func (c *ProtocolSwitchServerConn) detect() error {
 		if c.ln.tlcpCfg == nil {
 			return fmt.Errorf("pa: tlcp config not set")
 		}
-		c.wrapped = tlcp.Server(c.p, c.ln.tlcpCfg)
+		c.setWrapped(tlcp.Server(c.p, c.ln.tlcpCfg))
 	case 0x03:
 		// SSL/TLS major version 0x03
 		if c.ln.tlsCfg == nil {
 			return fmt.Errorf("pa: tls config not set")
 		}
-		c.wrapped = tls.Server(c.p, c.ln.tlsCfg)
+		c.setWrapped(tls.Server(c.p, c.ln.tlsCfg))
 	default:
 		return notSupportError
 	}
 	return nil
 }
 
+func (c *ProtocolSwitchServerConn) setWrapped(conn net.Conn) {
+	c.wrapped.Store(&conn)
+}
+
 // ProtectedConn 返回被保护的连接对象
 func (c *ProtocolSwitchServerConn) ProtectedConn() net.Conn {
-	return c.wrapped
+	if p := c.wrapped.Load(); p != nil {
+		return *p
+	}
+	return nil
 }
 
 func (c *ProtocolSwitchServerConn) Read(b []byte) (n int, err error) {
-	if c.wrapped == nil {
+	if c.ProtectedConn() == nil {
 		err = c.detect()
 		if err != nil {
 			return 0, err
 		}
 	}
-	return c.wrapped.Read(b)
+	return c.ProtectedConn().Read(b)
 }
 
 func (c *ProtocolSwitchServerConn) Write(b []byte) (n int, err error) {
-	if c.wrapped == nil {
+	if c.ProtectedConn() == nil {
 		err = c.detect()
 		if err != nil {
 			return 0, err
 		}
 	}
-	return c.wrapped.Write(b)
+	return c.ProtectedConn().Write(b)
 }
